@@ -8,9 +8,19 @@ histories.
 
 import ufl
 from mc import elements as E
-from mc import envs as EV
 from ufl.cell import CellSequence
 from ufl.classes import CellVolume, Circumradius, FacetNormal, Jacobian, SpatialCoordinate
+
+class EV:
+    """Meshes built exactly like mc.envs.mesh (not imported: keeps the forked process images small)."""
+
+    TDIM = {"interval": 1, "triangle": 2, "tetrahedron": 3}
+
+    @staticmethod
+    def mesh(cellname, gdim=None):
+        gdim = gdim or EV.TDIM[cellname]
+        return ufl.Mesh(E.P(cellname, 1, (gdim,)))
+
 
 N_MANY = 12  # objects of one class in the "many" forms: every start in (B-12, B) straddles boundary B
 
@@ -86,17 +96,26 @@ def const_triple_sum():
 def const_many_product():
     m, S = _tri()
     cs = [ufl.Constant(m) for _ in range(N_MANY)]
-    e = cs[0]
+    # every adjacent pair is compared directly (c_n * c_{n+1}), the products are compared in the sum,
+    # and one nested product compares a terminal with non-terminals
+    e = cs[0] * cs[1]
+    for n in range(1, N_MANY - 1):
+        e = e + cs[n] * cs[n + 1]
+    p = cs[0]
     for c in cs[1:]:
-        e = e * c
-    return e * ufl.dx
+        p = p * c
+    return (e + p) * ufl.dx
 
 
 def const_many_sum_spaced():
     # constants used in the form are every second created one
     m, S = _tri()
     cs = [ufl.Constant(m) for _ in range(2 * N_MANY)]
-    return sum(cs[1::2], cs[0]) * ufl.dx
+    used = cs[1::2]
+    e = used[0] + used[1]
+    for n in range(2, N_MANY, 2):
+        e = e * (used[n] + used[n + 1])
+    return e * ufl.dx
 
 
 def const_shapes():
@@ -151,9 +170,9 @@ def coef_pair():
 def coef_many_sum():
     m, S = _tri()
     fs = [ufl.Coefficient(S) for _ in range(N_MANY)]
-    e = fs[-1]
-    for f in reversed(fs[:-1]):
-        e = e + f * f
+    e = fs[-1] * fs[-2]
+    for n in reversed(range(N_MANY - 2)):
+        e = e + fs[n + 1] * fs[n] + (fs[n + 1] + fs[n]) ** 2
     return e * ufl.dx
 
 
@@ -192,9 +211,9 @@ def three_mesh_sum():
 
 def many_mesh_sum():
     ms = [EV.mesh("triangle") for _ in range(N_MANY)]
-    e = CellVolume(ms[0])
-    for m in ms[1:]:
-        e = e + CellVolume(m)
+    e = CellVolume(ms[0]) * CellVolume(ms[1])
+    for n in range(1, N_MANY - 1):
+        e = e + CellVolume(ms[n]) * Circumradius(ms[n + 1]) + (Circumradius(ms[n]) + Circumradius(ms[n + 1])) ** 2
     return e * ufl.dx(ms[3])
 
 
@@ -323,9 +342,9 @@ def many_variables():
     m, S = _tri()
     f = ufl.Coefficient(S)
     vs = [ufl.variable(f * (n + 2)) for n in range(N_MANY)]
-    e = vs[-1]
-    for x in reversed(vs[:-1]):
-        e = e * x + x
+    e = vs[-1] * vs[-2]
+    for n in reversed(range(N_MANY - 2)):
+        e = e + vs[n + 1] * vs[n] + (vs[n + 1] + vs[n]) ** 2
     return ufl.diff(e, vs[5]) * ufl.dx
 
 
